@@ -165,7 +165,7 @@ func init() {
 	register(&Prop{
 		ID:         "C08",
 		Title:      "A request that fails leaves no trace",
-		Decided:    "two-state typestate (clean → dirty on the first state write) over every core function that writes table/index state and can fail, and over every client data method: (R1) in core, no error return and no call that may raise the documented interpreter panic is reachable after a write to Table.Data/SortedKeys/index.refs/index.sortedKeys, a call that may write them, or a call that mutates in place a map obtained from Table.Data – i.e. all fallible steps (key derivation, condition, expression evaluation, index-key derivation for every index) precede the first write; (R2) Language.Update hands the caller's item to a mutating callee (Environment.Apply) only on the success edges of every error test and nothing fails afterwards; Native.Update calls the updater only when found; (R3) in the client data methods every fallible call that precedes the core mutator (failure test, placeholder validation, table lookup, key derivation) is tested and the mutator lies on its nil edge, and no unrelated error is returned after the mutator; (R4) the error of a core mutator always reaches the method's error result.",
+		Decided:    "two-state typestate (clean → dirty on the first state write) over every core function that writes table/index state and can fail, and over every client data method: (R1) in core, no error return and no call that may raise the documented interpreter panic is reachable after a write to Table.Data/SortedKeys/index.refs/index.sortedKeys, a call that may write them, or a call that mutates in place a map obtained from Table.Data – i.e. all fallible steps (key derivation, condition, expression evaluation, index-key derivation for every index) precede the first write; (R2) Language.Update hands the caller's item to a mutating callee (Environment.Apply) only on the success edges of every error test and nothing fails afterwards; Native.Update calls the updater only when found; (R3) in the client data methods every fallible call that precedes the core mutator (failure test, placeholder validation, table lookup, key derivation) is tested and the mutator lies on its nil edge, and no unrelated error is returned after the mutator; (R4) the error of a core mutator always reaches the method's error result; (R5) the working copy an update is applied to is a shallow copy (a new map sharing the *types.Item values with the stored item), so all-or-nothing also needs that no engine function writes through a *types.Item it did not just allocate – an in-place write reaches the stored item before the later steps can fail.",
 		NotDecided: "state equality is never computed: the argument is that no write happened, which is stronger. Batch calls are sequences of single-item calls (C19) and may have applied a prefix. Table-management calls are outside the statement. Mutation performed by user-supplied native updaters before they panic is outside scope.",
 		Assumes:    []string{"a function value of type interpreter.MatcherFunc supplied by the user does not mutate the item it is given", "SDK/stdlib calls do not mutate minidyn state"},
 		Rules: []RuleDef{
@@ -231,6 +231,7 @@ func init() {
 			{ID: "R2", Desc: "interpreter commits to the caller's item only after every error test passed (T-DOM)", Run: c08R2},
 			{ID: "R3", Desc: "client data methods: fallible pre-steps are tested and dominate the core mutator; no unrelated failure after it", Run: c08R3},
 			{ID: "R4", Desc: "errors of core mutators are propagated, never dropped", Run: c08R4},
+			{ID: "R5", Desc: "attribute values are never modified in place: no store through a *types.Item that is not freshly built (what makes the shallow working copies sufficient)", Run: c08R5},
 		},
 	})
 }
@@ -495,3 +496,52 @@ func c08R4(e *Engine) {
 }
 
 var _ = types.Typ
+
+// c08R5: Table.Update evaluates the expression on copyItem(stored), a new map whose values are the stored item's own
+// *types.Item pointers. That protects the stored item only as long as nothing writes THROUGH such a pointer: every
+// change must install a newly built Item. A store into a field of, or over, a *types.Item that is not a local allocation
+// is a write into shared attribute values.
+func c08R5(e *Engine) {
+	isItemPtr := func(t types.Type) bool {
+		p, ok := t.Underlying().(*types.Pointer)
+		if !ok {
+			return false
+		}
+		nt, isNamed := p.Elem().(*types.Named)
+		return isNamed && nt.Obj().Name() == "Item" && nt.Obj().Pkg() != nil && nt.Obj().Pkg().Path() == modPath+"/types"
+	}
+	n, bad := 0, 0
+	for _, role := range []string{"core", "interp", "lang", "types"} {
+		for _, fn := range e.funcs(role) {
+			instrs(fn, func(in ssa.Instruction) {
+				st, ok := in.(*ssa.Store)
+				if !ok {
+					return
+				}
+				var base ssa.Value
+				switch a := st.Addr.(type) {
+				case *ssa.FieldAddr:
+					if isItemPtr(a.X.Type()) {
+						base = a.X
+					}
+				default:
+					if isItemPtr(st.Addr.Type()) {
+						base = st.Addr
+					}
+				}
+				if base == nil {
+					return
+				}
+				n++
+				if _, fresh := strip(base).(*ssa.Alloc); fresh {
+					return
+				}
+				bad++
+				e.fail("R5", e.fname(fn)+":item-written-in-place", e.ipos(in), "a store through a *types.Item that this function did not allocate (%s): working copies of items share their attribute values with the stored item, so the stored item changes before the operation has succeeded", strings.Join(e.origins(base), "|"))
+			})
+		}
+	}
+	if bad == 0 {
+		e.pass("R5", "engine:items-immutable", "-", "%d stores into types.Item values, all into freshly allocated ones", n)
+	}
+}
